@@ -1,6 +1,6 @@
 import vlib
 
-THEORY = ["theories/Mesh/Pure.v", "theories/Mesh/PureLemmas.v", "theories/Mesh/PureProofs.v", "theories/Mesh/Case.v", "theories/Mesh/PureLaws.v", "theories/Mesh/AreaLaws.v", "theories/Mesh/Smooth.v", "theories/Mesh/SmoothProofs.v"]
+THEORY = ["theories/Mesh/Pure.v", "theories/Mesh/PureLemmas.v", "theories/Mesh/PureProofs.v", "theories/Mesh/Case.v", "theories/Mesh/PureLaws.v", "theories/Mesh/AreaLaws.v", "theories/Mesh/Smooth.v", "theories/Mesh/SmoothProofs.v", "theories/Mesh/Normals.v", "theories/Mesh/NormalsProofs.v"]
 
 CFG = {
     "id": "C03", "harness": "c03",
